@@ -151,7 +151,7 @@ def run(ctx):
     rep.note("TLC: %d family groups in %.0fs" % (len(GROUPS), time.time() - t0))
     # ---- 2. behaviours
     behaviours = []
-    cap = int(os.environ.get("VERIF_ERASE_CAP", "0") or 0) or (4000 if ctx.quick else 40000)
+    cap = int(os.environ.get("VERIF_ERASE_CAP", "0") or 0) or (4000 if ctx.quick else 60000)
     max_len = 12
     nedges = 0
     for name, _ in GROUPS:
